@@ -68,19 +68,25 @@ fn main() {
         let e = nv::name_tokenizer_encode(&[])?;
         nv::name_tokenizer_decode(&e)
     });
-    println!("-- accepted by the format (not violations) / outside the stated domain (observations) --");
-    show("   rans_4x8 o1 [1,2,3] (order-1 of < 4 bytes is not permitted by the format)", || rt4x8(nv::Order::One, &[1, 2, 3]));
-    show("   fqzcomp with a zero-length record lens=[2,0,2] quals=[1,2,3,4]", || {
+    show("L  name_tokenizer [a:1,a:01]", || {
+        let x = b"a:1\0a:01\0";
+        let e = nv::name_tokenizer_encode(x)?;
+        let d = nv::name_tokenizer_decode(&e)?;
+        Ok((d == x, String::from_utf8_lossy(&d).replace('\0', "|")))
+    });
+    show("J  fqzcomp with a zero-length record lens=[2,0,2] quals=[1,2,3,4]", || {
         let e = nv::fqzcomp_encode(&[2, 0, 2], &[1, 2, 3, 4])?;
         nv::fqzcomp_decode(&e)
     });
     let big = vec![b'I'; (1 << 20) + 2048];
-    show("   rans_4x8 o0 on 2^20+2048 equal bytes (u32 frequency * 4095)", || rt4x8(nv::Order::Zero, &big).map(|r| r.0));
-    show("   rans_nx16 {} on 2^20+2048 equal bytes (u32 frequency * 4096)", || rtnx16(0, &big).map(|r| r.0));
+    show("I  rans_4x8 o0 on 2^20+2048 equal bytes (u32 frequency * 4095)", || rt4x8(nv::Order::Zero, &big).map(|r| r.0));
+    show("I  rans_nx16 {} on 2^20+2048 equal bytes (u32 frequency * 4096)", || rtnx16(0, &big).map(|r| r.0));
     let many: Vec<u8> = std::iter::repeat_n(*b"a:", 70).flatten().chain(*b"\0").collect();
-    show("   name_tokenizer one name of 140 tokens (\"a:\" x 70)", || {
+    show("K  name_tokenizer one name of 140 tokens (\"a:\" x 70)", || {
         let e = nv::name_tokenizer_encode(&many)?;
         let d = nv::name_tokenizer_decode(&e)?;
         Ok(d == many)
     });
+    println!("-- accepted by the format (not a violation) --");
+    show("   rans_4x8 o1 [1,2,3] (order-1 of < 4 bytes is not permitted by the format)", || rt4x8(nv::Order::One, &[1, 2, 3]));
 }
